@@ -121,7 +121,8 @@ impl Ir {
                 opaque: item.map_or(false, |i| i.flag("opaque")), own_virtual: r.flag("own_virtual"), has_bitfields: r.flag("has_bitfields"),
                 nontype_tparams: r.flag("nontype_tparams"), all_tparams_empty: r.get("all_tparams") == "-", has_bases: r.get("bases") != "-",
                 codegen: item.map_or(false, |i| i.flag("codegen")),
-                zero_sized: sized.get(&id).map_or(false, |v| v == "ZeroSized"),
+                // `lookup_sizedness` defaults to ZeroSized for types the analysis has no entry for
+                zero_sized: sized.get(&id).map_or(true, |v| v == "ZeroSized"),
                 has_vtable_ptr: vt.get(&id).map_or(false, |v| v == "SelfHasVtable"),
                 fields: fields.remove(&id).unwrap_or_default(),
             });
@@ -156,6 +157,11 @@ impl Ir {
     }
 }
 
+/// bit offset at which libclang's numbers say the unit starts
+pub fn unit_start_bits(f: &IrField) -> Option<u64> {
+    f.bfs.iter().filter_map(|b| b.4.and_then(|o| o.checked_sub(b.2))).min()
+}
+
 pub struct ModelOpts {
     pub force_padding: bool,
     pub ptr_size: u64,
@@ -178,7 +184,7 @@ pub fn model_request(ir: &Ir, c: &IrComp, o: &ModelOpts, packed_attr: Option<boo
     let fields: Vec<String> = c.fields.iter().enumerate().map(|(fi, f)| {
         if f.is_unit {
             let bits_end = f.bfs.iter().map(|b| b.2 + b.3).max().unwrap_or(0);
-            format!("u:{}:{}:{}", f.nth, l2s(f.layout), bits_end)
+            format!("u:{}:{}:{}:{}", f.nth, l2s(f.layout), bits_end, unit_start_bits(f).map_or("-".to_string(), |s| s.to_string()))
         } else {
             let arr = match ir.canonical(f.ty) {
                 Some(t) if t.kind == "Array" => {
@@ -212,6 +218,8 @@ pub struct ModelAgg {
     pub is_packed: bool,
     pub inexact_pad: bool,
     pub regions: Vec<String>,
+    /// reprC offsets of the bit-field units (nth, byte offset)
+    pub unit_offsets: Vec<(u64, u64)>,
 }
 
 pub fn parse_model_answer(a: &str) -> Option<ModelAgg> {
@@ -254,6 +262,9 @@ pub fn parse_model_answer(a: &str) -> Option<ModelAgg> {
                 }
             }
             m.reprc = Some((size, align, offs));
+            if let Some(u) = t.get(i + 4).and_then(|x| x.strip_prefix("uoffs=")) {
+                if u != "-" { for x in u.split(',') { let (a, b) = x.split_once(':')?; m.unit_offsets.push((a.parse().ok()?, b.parse().ok()?)); } }
+            }
         }
     }
     Some(m)
